@@ -210,6 +210,7 @@ typedef struct
     /*EXTRA*/
     Bit32u mute[7];
     Bit32s rateratio;
+    Bit32u chip_type; /* per-chip copy of the type set by OPN2_SetChipType at reset */
     Bit32s samplecnt;
     Bit32s oldsamples[2];
     Bit32s samples[2];
